@@ -111,7 +111,7 @@ func checkC20(R *Run) {
 		name string
 	}
 	nSites := 0
-	persisting := map[*ssa.Function]bool{} // functions that rename onto a live path on every success return
+	var persisting map[*ssa.Function]bool // functions that rename onto a live path on every success return
 	var fnsWithRename []*ssa.Function
 	for _, fn := range P.Funcs {
 		if fn.Pkg == nil || fn.Pkg.Pkg.Path() == cmdPath {
@@ -201,6 +201,63 @@ func checkC20(R *Run) {
 	R.floor("atomic-replace", 9)
 	R.countSites(nSites)
 
+	persisting = P.persistingFns()
+	var spec struct {
+		Stores []storeSpec `json:"stores"`
+	}
+	if err := readSpec("stores.json", &spec); err != nil {
+		R.und("persist-before-ack", "spec/stores.json", "-", err.Error())
+		return
+	}
+	for _, st := range spec.Stores {
+		typ := strings.Replace(st.Type, "internal/mobius.", "mobius.", 1)
+		for _, m := range st.Mutators {
+			fn := P.fn("(*" + typ + ")." + m)
+			if fn == nil {
+				R.und("persist-before-ack", typ+"."+m, "-", "mutator named in spec/stores.json does not exist (stale table)")
+				continue
+			}
+			R.analysed(fname(fn))
+			R.check(persisting[fn], "persist-before-ack", fname(fn), P.pos(fn.Pos()), "every success return is preceded by the rename onto the live file", "a success return is reachable without the new state having been renamed onto the live file: an acknowledged change can be lost, or the store is updated in place")
+		}
+	}
+	R.floor("persist-before-ack", 9)
+
+	// loader-skips-temp
+	var suffixes []string
+	for _, fn := range P.Funcs {
+		for _, ci := range callsIn(fn) {
+			if calleeName(ci.Common()) == "os.WriteFile" {
+				s := stripRecv(P.sym(ci.Common().Args[0]))
+				if pc := classifyPath(s); pc.kind == "temp" && pc.store == "mobius.YAMLAccountManager" {
+					if m := tempSuffixRe.FindStringSubmatch(s); m != nil {
+						suffixes = append(suffixes, m[2])
+					}
+				}
+			}
+		}
+	}
+	sort.Strings(suffixes)
+	okSuf := len(suffixes) > 0
+	for _, s := range suffixes {
+		if strings.HasSuffix(s, ".yaml") || strings.HasSuffix(s, "yaml") {
+			okSuf = false
+		}
+	}
+	R.check(okSuf, "loader-skips-temp", "account temp suffix", "internal/mobius/account_manager.go", fmt.Sprintf("temp suffixes %v are not matched by the loader's *.yaml glob", suffixes), fmt.Sprintf("account temp files (suffixes %v) would be picked up by the loader's *.yaml glob after a crash", suffixes))
+}
+
+func init() { register("C20", checkC20) }
+
+var persistMemo = map[*Prog]map[*ssa.Function]bool{}
+
+// persistingFns: functions that, on every possibly-successful return, have renamed a temp file onto a live
+// path / removed a live file (directly or through a helper that always does).
+func (P *Prog) persistingFns() map[*ssa.Function]bool {
+	if m, ok := persistMemo[P]; ok {
+		return m
+	}
+	persisting := map[*ssa.Function]bool{}
 	// persisting helpers: every success return is preceded by the rename
 	isRenameLive := func(ins ssa.Instruction) bool {
 		ci, ok := ins.(ssa.CallInstruction)
@@ -257,49 +314,6 @@ func checkC20(R *Run) {
 			}
 		}
 	}
-	var spec struct {
-		Stores []storeSpec `json:"stores"`
-	}
-	if err := readSpec("stores.json", &spec); err != nil {
-		R.und("persist-before-ack", "spec/stores.json", "-", err.Error())
-		return
-	}
-	for _, st := range spec.Stores {
-		typ := strings.Replace(st.Type, "internal/mobius.", "mobius.", 1)
-		for _, m := range st.Mutators {
-			fn := P.fn("(*" + typ + ")." + m)
-			if fn == nil {
-				R.und("persist-before-ack", typ+"."+m, "-", "mutator named in spec/stores.json does not exist (stale table)")
-				continue
-			}
-			R.analysed(fname(fn))
-			R.check(persisting[fn], "persist-before-ack", fname(fn), P.pos(fn.Pos()), "every success return is preceded by the rename onto the live file", "a success return is reachable without the new state having been renamed onto the live file: an acknowledged change can be lost, or the store is updated in place")
-		}
-	}
-	R.floor("persist-before-ack", 9)
-
-	// loader-skips-temp
-	var suffixes []string
-	for _, fn := range P.Funcs {
-		for _, ci := range callsIn(fn) {
-			if calleeName(ci.Common()) == "os.WriteFile" {
-				s := stripRecv(P.sym(ci.Common().Args[0]))
-				if pc := classifyPath(s); pc.kind == "temp" && pc.store == "mobius.YAMLAccountManager" {
-					if m := tempSuffixRe.FindStringSubmatch(s); m != nil {
-						suffixes = append(suffixes, m[2])
-					}
-				}
-			}
-		}
-	}
-	sort.Strings(suffixes)
-	okSuf := len(suffixes) > 0
-	for _, s := range suffixes {
-		if strings.HasSuffix(s, ".yaml") || strings.HasSuffix(s, "yaml") {
-			okSuf = false
-		}
-	}
-	R.check(okSuf, "loader-skips-temp", "account temp suffix", "internal/mobius/account_manager.go", fmt.Sprintf("temp suffixes %v are not matched by the loader's *.yaml glob", suffixes), fmt.Sprintf("account temp files (suffixes %v) would be picked up by the loader's *.yaml glob after a crash", suffixes))
+	persistMemo[P] = persisting
+	return persisting
 }
-
-func init() { register("C20", checkC20) }
